@@ -266,6 +266,39 @@ def mon_cpr(case):
     return None
 
 
+def zero_pos(addr, bufs):
+    """Position of a zero-byte copy relative to the dirty buffers [(start, size)]: inside / start / end / outside."""
+    if any(st < addr < st + sz for st, sz in bufs):
+        return 'inside'
+    if any(addr == st for st, sz in bufs):
+        return 'start'
+    if any(addr == st + sz for st, sz in bufs):
+        return 'end'
+    return 'outside'
+
+
+def completion_fault(what, nflush, nreq, after, ends, crash_at, default_mw):
+    """The rules every copy command obeys whatever its size: no panic while its requests are answered (each once), it
+    leaves its queue exactly when the last answer - flush acknowledgements included - has been processed, and the
+    driver reports it complete exactly once.  after = answers delivered when it left the queue (-1 never),
+    crash_at = answers delivered when the driver panicked (-1 no panic).  The harness delivers the flush
+    acknowledgements first unless told otherwise, so answer k < nflush is a flush acknowledgement."""
+    if crash_at >= 0 and nreq == 0:
+        return '%s: the driver panicked although the command waits for no request (reported complete %d times)' % (what, ends)
+    if crash_at >= 0:
+        early = (' after the command had already left its queue with %d of %d answers delivered (%d of them flush '
+                 'acknowledgements outstanding)' % (after, nreq, max(0, nflush - after))) if 0 <= after < nreq else ''
+        return '%s: the driver panicked while answer %d of %d was processed%s' % (what, crash_at + 1, nreq, early)
+    if after < 0:
+        return '%s never completed although all %d requests were answered' % (what, nreq)
+    if after != nreq:
+        return '%s returned after %d of %d answers (%d flush requests): it must wait for every one of its requests' % (
+            what, after, nreq, nflush)
+    if default_mw and ends != 1:
+        return '%s was reported complete %d times' % (what, ends)
+    return None
+
+
 def mon_hist(case):
     """Multi-queue history of one context.  A copy whose range shares a byte with a buffer that existed when a
     kernel was launched, that kernel having completed since the last flush was issued, must flush."""
@@ -275,6 +308,10 @@ def mon_hist(case):
     bufs = [(b['start'], b['size']) for b in case.get('initb', [])]
     for k, e in enumerate(case['events']):
         if e.get('crash'):
+            if e['e'] == 'copy' and 'nreq' in e:
+                return 'event %d: %s' % (k, completion_fault(
+                    '%s %#x +%d on queue %d' % ('D2H' if e.get('d2h') else 'H2D', e.get('addr', 0), e.get('n', 0), e['q']),
+                    case['ngpu'] if e['flush'] else 0, e['nreq'], e.get('after', -1), e.get('ends', 0), e.get('crash_at', 0), True))
             return 'event %d (%s on queue %d) panicked' % (k, e['e'], e['q'])
         if e['e'] == 'alloc':
             bufs.append((e['ptr'], e['size']))
@@ -291,12 +328,17 @@ def mon_hist(case):
             else:
                 for m, q in need:
                     for (st, sz) in bufs[:m]:
-                        if sz > 0 and max(st, e['addr']) < min(st + sz, e['addr'] + e['n']):
+                        if sz > 0 and max(st, e['addr']) < min(st + sz, e['addr'] + e.get('n', 0)):
                             return ('event %d: %s %#x +%d on queue %d skipped the cache flush although the kernel of queue %d '
                                     'completed since the last flush and may have written buffer [%#x,+%d)'
-                                    % (k, 'D2H' if e.get('d2h') else 'H2D', e['addr'], e['n'], e['q'], q, st, sz))
+                                    % (k, 'D2H' if e.get('d2h') else 'H2D', e['addr'], e.get('n', 0), e['q'], q, st, sz))
             if not e['done']:
                 return 'event %d: copy on queue %d did not complete after all responses' % (k, e['q'])
+            if 'nreq' in e:
+                m = completion_fault('%s %#x +%d on queue %d' % ('D2H' if e.get('d2h') else 'H2D', e['addr'], e.get('n', 0), e['q']),
+                                     case['ngpu'] if e['flush'] else 0, e['nreq'], e['after'], e['ends'], -1, True)
+                if m:
+                    return 'event %d: %s' % (k, m)
     return None
 
 
@@ -326,6 +368,10 @@ def mon_drv(case):
         mapped = all(tr(a) is not None for a in ({op['addr'] + i for i in range(0, n, ps)} | ({op['addr'] + n - 1} if n else set())))
         if op['crash']:
             if mapped:
+                if kind in ('h2d', 'd2h') and op.get('crash_at', -1) >= 0 and op.get('order'):
+                    return 'operation %d: %s' % (k, completion_fault(
+                        '%s %#x +%d' % (kind, op['addr'], n), op['nflush'], len(op['order']), op['completed_after'],
+                        op.get('completions', 0), op['crash_at'], not case['magic'])), known
                 return 'operation %d (%s %#x +%d) panicked although every page is mapped' % (k, kind, op['addr'], n), known
             return None, known            # nothing after a panic is judged
         if not mapped:
@@ -333,8 +379,13 @@ def mon_drv(case):
         if kind in ('h2d', 'd2h'):
             if not op['completed']:
                 return 'operation %d (%s) never completed although all %d requests were answered' % (k, kind, op['total']), known
-            if op['completed_after'] != op['total']:
+            if op['completed_after'] != op['total'] and 'completions' not in op:
                 return 'operation %d (%s) completed after %d of %d responses' % (k, kind, op['completed_after'], op['total']), known
+            if 'completions' in op:
+                m = completion_fault('%s %#x +%d' % (kind, op['addr'], n), op['nflush'], op['total'], op['completed_after'],
+                                     op['completions'], -1, not case['magic'])
+                if m:
+                    return 'operation %d: %s' % (k, m), known
             need = any(b['dirty'] and max(b['start'], op['addr']) < min(b['start'] + b['size'], op['addr'] + n) for b in op['bufs'])
             if need and not op['flush'] and n > 0:
                 return ('operation %d (%s %#x +%d) skipped the cache flush although it intersects a dirty buffer'
@@ -658,7 +709,9 @@ def main(argv):
                 'float32/uint64/struct, magic and default middleware alternating, accessor reads/writes on the same storage; '
                 'non-trivial = at least one operation crosses a page boundary.  Overlap: all orderings of 4 endpoints + random.  '
                 'Flush histories: one context, 2-4 queues on 1-3 GPUs, 8-37 events (alloc / kernel launch / kernel completion / H2D / D2H) '
-                'in random interleavings; non-trivial = a copy is processed while a kernel of another queue is in flight.',
+                'in random interleavings; non-trivial = a copy is processed while a kernel of another queue is in flight.  Zero-byte copies (both directions) strictly '
+                'inside / at the start / at the end / outside L2-dirty buffers close 3 of 4 driver cases (hook) and are every 5th copy of the flush '
+                'histories (after real kernel launches); the driver is ticked until idle before every acknowledgement is delivered.',
         'traces_validated_against_impl': len(cases['dma']) + len(cases['drv']),
         'dma_event_histogram': dict(hist),
         'dma_completions_observed': sum(1 for c in cases['dma'] for e in c['events'] if e.get('done')),
@@ -669,6 +722,13 @@ def main(argv):
         'driver_page_crossing_ops': sum(1 for c in cases['drv'] for o in c['ops'] if o['op'] not in ('dirty', 'free') and
                                         ((o['addr'] % (1 << c['lg'])) + (len(o['data']) if o['op'] in ('h2d', 'accw') else o['n']) > (1 << c['lg']))),
         'driver_multi_gpu_ops': sum(1 for c in cases['drv'] for o in c['ops'] if len({r['dev'] for r in o['reqs']}) > 1),
+        'zero_byte_copies_by_position_relative_to_dirty_buffers (default middleware, driver cases)': dict(collections.Counter(
+            zero_pos(o['addr'], [(b['start'], b['size']) for b in o['bufs'] if b['dirty']]) + ('/flush' if o['flush'] else '/no-flush')
+            for c in cases['drv'] if not c['magic'] for o in c['ops']
+            if o['op'] in ('h2d', 'd2h') and not (len(o['data']) if o['op'] == 'h2d' else o['n']))),
+        'zero_byte_copies_in_flush_histories (flush acks, completions)': dict(collections.Counter(
+            ('flush' if e['flush'] else 'no-flush') for c in cases['hist'] for e in c['events']
+            if e['e'] == 'copy' and not e.get('n', 0) and (e['done'] or e['flush']))),
         'driver_flushes': sum(1 for c in cases['drv'] for o in c['ops'] if o['flush']),
         'driver_panics': sum(1 for c in cases['drv'] for o in c['ops'] if o['crash']),
         'overlap_samples': len(cases['ovl']),
